@@ -115,6 +115,13 @@ def wr(buf, elems, off=0):
             raise Inconclusive("native model: write beyond buffer")
         buf.base.b[buf.off + off:buf.off + off + len(elems)] = elems
         return
+    if isinstance(buf, SymBytes):
+        # C code writing through a pointer into a bytes object (PKCS1_v1_5.decrypt passes
+        # bytes(bytearray(k)) as the output buffer): the object's storage is what changes
+        if off + len(elems) > len(buf.b):
+            raise Inconclusive("native model: write beyond buffer")
+        buf.b[off:off + len(elems)] = elems
+        return
     if isinstance(buf, bytearray) and core.all_concrete(elems):
         buf[off:off + len(elems)] = bytes(elems)
         return
@@ -1113,3 +1120,44 @@ class KeccakLib(object):
         dst.update(cap=src['cap'], rounds=src['rounds'], data=list(src['data']), squeezing=src['squeezing'],
                    pos=src['pos'], padding=src['padding'])
         return 0
+
+
+# --------------------------------------------------------------------------------------------
+# C in the loop: modules served by the LLSYM machine (the real C from clang IR)
+
+def _sym_kernel(cfile, stubs=None):
+    from vlib.llsym import kern
+    return kern.SymKernel(None, cfile, stubs)
+
+
+llsym_events = []        # memory-safety events seen through bridged calls: (module, kind, detail)
+
+
+def _note_events(K, module):
+    for kind, detail, conds in K.memory_violations():
+        llsym_events.append((module, kind, detail))
+        raise Inconclusive("memory-safety event inside bridged C call %s: %s %s (reported by the kernel-level check)"
+                           % (module, kind, detail))
+
+
+@register("Crypto.Cipher._pkcs1_decode")
+class Pkcs1DecodeLib(object):
+    """src/pkcs1_decode.c executed symbolically; caller buffers are mapped with their real Python sizes"""
+
+    def pkcs1_decode(self, em, em_len, sentinel, s_len, expected, output):
+        K = _sym_kernel('pkcs1_decode.c')
+        p_em = K.buf(to_elems(em), False, 'em')
+        p_s = K.buf(to_elems(sentinel), False, 'sentinel')
+        n_out = len(output)
+        p_out = K.buf(to_elems(output), True, 'output')
+        r = K.call('pkcs1_decode', p_em, em_len, p_s, s_len, expected, p_out)
+        _note_events(K, 'pkcs1_decode')
+        wr(output, K.read(p_out, n_out).b)
+        return r
+
+    def oaep_decode(self, em, em_len, lhash, h_len, db, db_len):
+        K = _sym_kernel('pkcs1_decode.c')
+        r = K.call('oaep_decode', K.buf(to_elems(em), False, 'em'), em_len, K.buf(to_elems(lhash), False, 'lHash'),
+                   h_len, K.buf(to_elems(db), False, 'db'), db_len)
+        _note_events(K, 'oaep_decode')
+        return r
